@@ -54,6 +54,7 @@ Proof.
   intros s q; destruct q; cbn [api_step].
   - unfold do_set. destruct (check_name s sw false); [repeat split; discriminate|].
     destruct kvs; [|repeat split; discriminate].
+    destruct (c_keycheck cfg_now && existsb _ l); [repeat split; discriminate|].
     destruct (negb create && negb over); [unfold set_err; repeat split; discriminate|].
     destruct (negb create && negb (exists_sw s sw)); [unfold set_err; repeat split; discriminate|].
     destruct (set_items cfg_now create over (summon s sw) l). repeat split; discriminate.
@@ -73,13 +74,15 @@ Proof.
     destruct (shift_keys (summon s sw) (z :: keys)). repeat split; discriminate.
   - destruct (sw =? 0); [repeat split; discriminate|].
     destruct ((by_ =? 0) || negb (numeric t)); [repeat split; discriminate|].
+    destruct (c_keycheck cfg_now && (k =? 0)); [repeat split; discriminate|].
     unfold do_inc_swamp.
     destruct (match ctype_of (r_c (obj_of (summon s sw) k)) with
               | CVoid => _ | CSc t' => _ | CSlice => _ end); [|repeat split; discriminate].
     destruct (match cond with Some (op, v) => _ | None => true end).
     + destruct (save cfg_now (summon s sw) k _). repeat split; discriminate.
     + repeat split; discriminate.
-  - destruct (check_name s sw false); repeat split; discriminate.
+  - destruct (check_name s sw false); [repeat split; discriminate|].
+    destruct (c_keycheck cfg_now && existsb _ pairs); repeat split; discriminate.
   - destruct (check_name s sw false); [repeat split; discriminate|].
     pose proof (sldel_never_hangs pairs (summon s sw) true) as Hh.
     destruct (sldel_pairs cfg_now (summon s sw) true pairs) as [[x a] h]. cbn in Hh; subst h.
@@ -677,7 +680,8 @@ Proof.
     destruct (sw =? 0) eqn:E0; [split; [reflexivity|exact Hwf]|].
     destruct (false && negb (exists_sw s sw)); [split; [reflexivity|exact Hwf]|].
     destruct kvs as [its|]; [|split; [reflexivity|exact Hwf]].
-    cbn [set_err cfg_now c_dupset].
+    cbn [set_err cfg_now c_dupset c_keycheck andb].
+    destruct (existsb (fun it => kv_key it =? 0) its); [split; [reflexivity|exact Hwf]|].
     destruct (negb create && negb over); [split; [reflexivity|exact Hwf]|].
     destruct (negb create && negb (exists_sw s sw)); [split; [reflexivity|exact Hwf]|].
     rewrite summon_abs in *.
@@ -724,13 +728,15 @@ Proof.
   - (* Increment *)
     destruct (sw =? 0) eqn:E0; [split; [reflexivity|exact Hwf]|].
     destruct ((by_ =? 0) || negb (numeric t)) eqn:E1; [split; [reflexivity|exact Hwf]|].
-    cbn [orb] in D. rewrite E1 in D. rewrite summon_abs in *.
+    cbn [orb] in D. rewrite E1 in D. cbn [cfg_now c_keycheck andb].
+    destruct (k =? 0); [split; [reflexivity|exact Hwf]|]. rewrite summon_abs in *.
     pose proof (inc_sim (summon s sw) t k by_ cond ne e (wf_summon s sw Hwf) D) as H.
     destruct (do_inc_swamp cfg_now (summon s sw) t k by_ cond ne e) as [x r]. destruct H as [H1 H2].
     rewrite H1, commit_abs. split; [reflexivity|apply wf_commit; assumption].
   - (* Push *)
     rewrite check_abs. unfold check_name in *. destruct (sw =? 0) eqn:E0; [split; [reflexivity|exact Hwf]|].
-    cbn [andb]. rewrite summon_abs in *.
+    cbn [andb cfg_now c_keycheck].
+    destruct (existsb (fun p => fst p =? 0) pairs); [split; [reflexivity|exact Hwf]|]. rewrite summon_abs in *.
     destruct (push_pairs_sim pairs (summon s sw) (wf_summon s sw Hwf) D) as [H1 H2].
     rewrite H1, commit_abs. split; [reflexivity|apply wf_commit; assumption].
   - (* SliceDelete *)
